@@ -19,6 +19,7 @@ CLAIMED = {
  "C06": ("pods built by the real constructors for every ordinal/partition/claim-template shape carry the stable identity and storage of the statement; the real pod control over fake clients with every single failure of claim lookups, claim creates and the pod create, in every claim-map iteration order: claims first, failure blocks the pod, claims never rewritten, a re-created ordinal gets the same claims", "5/C06"),
  "C08": ("revision bookkeeping (getStatefulSetRevisions, create/update of revisions, collision loop) over stored histories with arbitrary revision numbers, engineered name collisions and collision counts, followed by a reconcile after each kind of non-template edit; codec-dependent clauses are not decided (see level_note)", "5/C08"),
  "C13": ("sync(key) over revision populations with every owner x label x upgrade-marker combination, arbitrary revision numbers and an arbitrary int32 history limit: every revision delete in the log is justified, oldest first, each revision once", "5/C13"),
+ "C16": ("each pod/set event handler on one event of every shape (owner x labels x resource version x deletion timestamp x tombstones) against the real lister: the enqueued keys are exactly those the statement lists; one worker step with an API failure at any call: AddRateLimited vs Forget, Done always", "5/C16"),
 }
 NA = {}
 def main():
